@@ -296,12 +296,24 @@ def h_adjust(c):
   # declarative copy of the map (no fork)
   g = lambda t: c.If(t < bp, off + m1 * t, off + m1 * bp + m2 * (t - bp))
   before = c.snapshot(ns)
-  res, err = c.raises(sl.adjust_notesequence_times, ns, f)
+  # minimum_duration: collapsed notes are kept with this duration instead of
+  # being skipped
+  mind = c.real('min_dur', 0, 1) if c.params.get('min_dur') else None
+  if mind is not None:
+    c.assume(mind > 0)
+    res, err = c.raises(sl.adjust_notesequence_times, ns, f, mind)
+  else:
+    res, err = c.raises(sl.adjust_notesequence_times, ns, f)
   c.check(c.msg_eq(ns, before), 'input unchanged')
   notes = info['notes']
-  bad_note = [c.And(c.Not(c.eq(g(n['start_time']), g(n['end_time']))),
-                    c.Or(g(n['end_time']) < g(n['start_time']),
-                         g(n['start_time']) < 0)) for n in notes]
+  if mind is not None:
+    bad_note = [c.Or(c.And(c.Not(c.eq(g(n['start_time']), g(n['end_time']))),
+                           g(n['end_time']) < g(n['start_time'])),
+                     g(n['start_time']) < 0) for n in notes]
+  else:
+    bad_note = [c.And(c.Not(c.eq(g(n['start_time']), g(n['end_time']))),
+                      c.Or(g(n['end_time']) < g(n['start_time']),
+                           g(n['start_time']) < 0)) for n in notes]
   ev_times = [t for (name, _, t) in info['events']
               if name not in ('tempos', 'section_annotations')]
   bad_ev = [g(t) < 0 for t in ev_times]
@@ -315,10 +327,17 @@ def h_adjust(c):
   c.check(c.Not(bad), 'reversing / negative map accepted')
   adj, skipped = res
   collapsed = [c.eq(g(n['start_time']), g(n['end_time'])) for n in notes]
-  c.check(c.eq(skipped, c.Count(collapsed)), 'skipped = zero-length notes')
-  exp = [(c.Not(col), (g(n['start_time']), g(n['end_time']), n['pitch'],
-                       n['velocity'], n['instrument'], n['program'],
-                       n['is_drum'])) for n, col in zip(notes, collapsed)]
+  if mind is not None:
+    c.check(c.eq(skipped, 0), 'with minimum_duration nothing is skipped')
+    exp = [(True, (g(n['start_time']),
+                   c.If(col, g(n['end_time']) + mind, g(n['end_time'])),
+                   n['pitch'], n['velocity'], n['instrument'], n['program'],
+                   n['is_drum'])) for n, col in zip(notes, collapsed)]
+  else:
+    c.check(c.eq(skipped, c.Count(collapsed)), 'skipped = zero-length notes')
+    exp = [(c.Not(col), (g(n['start_time']), g(n['end_time']), n['pitch'],
+                         n['velocity'], n['instrument'], n['program'],
+                         n['is_drum'])) for n, col in zip(notes, collapsed)]
   got = [(m.start_time, m.end_time, m.pitch, m.velocity, m.instrument,
           m.program, m.is_drum) for m in adj.notes]
   c.check(K.multiset_eq(c, got, exp), 'every surviving note mapped by the map')
@@ -458,6 +477,7 @@ def jobs(tier):
     add('h_adjust', N=1, m1=slopes[m1], m2=slopes[m2])
   add('h_adjust', N=2, m1=slopes[1], m2=slopes[3])
   add('h_adjust', N=2, m1=slopes[2], m2=slopes[0])
+  add('h_adjust', N=1, m1=slopes[2], m2=slopes[0], min_dur=True)
   add('h_rectify', B=1, bpm=60)
   add('h_rectify', B=2, bpm=120)
   add('h_rectify_quantized')
